@@ -215,17 +215,7 @@ fn js_value_to_string(value: &JsValue) -> String {
     match value {
         JsValue::String(s) => s.to_string(),
         JsValue::Number(n) => {
-            if n.is_nan() {
-                "NaN".to_string()
-            } else if n.is_infinite() {
-                if *n > 0.0 {
-                    "Infinity".to_string()
-                } else {
-                    "-Infinity".to_string()
-                }
-            } else {
-                n.to_string()
-            }
+            crate::value::number_to_string(*n)
         }
         JsValue::Boolean(b) => b.to_string(),
         JsValue::Undefined => "undefined".to_string(),
